@@ -89,10 +89,19 @@ LINKS = b"Name=From Links\nPath=./a.txt\nNumb=2\n\nName=Remote\nType=1\nPath=/r1
 NAMESF = b"Name=From names\nPath=./a.txt\nAbstract=abs from names\n\nName=Bee\nPath=./b.txt\nNumb=-1\n\nType=X\nPath=./hid/\n\nName=Title for the hidden one\nPath=./b2.txt\n"
 
 
+EXTRA2 = [".cap", "capx.txt", "aa-dangling"]  # always enumerated last; sorting puts the dangling link FIRST
+
+
 def _nodes2(order):
-    names = [POOL2[i] for i in order]
+    import errno
+
+    names = [POOL2[i] for i in order] + EXTRA2
     nodes = {"/": mv.Dir(["d"]), "/d": mv.Dir(names), "/d/.Links": mv.File(LINKS), "/d/.names": mv.File(NAMESF),
-             "/d/a.txt": mv.File(b"a\n"), "/d/b.txt": mv.File(b"b\n"), "/d/zdir": mv.Dir([]), "/d/hid": mv.Dir([]), "/d/b2.txt": mv.File(b"b2\n")}
+             "/d/a.txt": mv.File(b"a\n"), "/d/b.txt": mv.File(b"b\n"), "/d/zdir": mv.Dir([]), "/d/hid": mv.Dir([]), "/d/b2.txt": mv.File(b"b2\n"),
+             # hidden by its .cap file (which, like most hand-edited files, ends with an empty line)
+             "/d/.cap": mv.Dir(["capx.txt"]), "/d/.cap/capx.txt": mv.File(b"Type=X\n\n"), "/d/capx.txt": mv.File(b"c\n"),
+             # an entry that cannot be served must not take the ones after it with it
+             "/d/aa-dangling": mv.Fail(errno.ENOENT)}
     return nodes
 
 
@@ -129,8 +138,11 @@ def body_order(umn: bool, i0: int, i1: int, i2: int, i3: int, i4: int) -> bool:
     hx.require(len(sels) == len(set(sels)), "C07:entry-listed-twice", lambda: repr(sels))
     if umn:
         # documented: a Type=X block hides the entry it names (also when the Path is written with a trailing slash)
-        hx.require("/d/hid" not in sels and "/d/hid/" not in sels and "/d/b2.txt" not in sels, "C07:entry-hidden-by-metadata-is-listed", lambda: repr(sels))
+        hx.require("/d/hid" not in sels and "/d/hid/" not in sels and "/d/b2.txt" not in sels and "/d/capx.txt" not in sels, "C07:entry-hidden-by-metadata-is-listed", lambda: repr(sels))
         hx.require(sorted(sels) == sorted(["/r1", "/d/a.txt", "/d/b.txt", "/d/zdir"]), "C07:listing-not-exactly-visible-entries", lambda: repr(sels))
+    else:
+        # the plain DirHandler has no implicit dot-file rule and reads no metadata: everything the ignore pattern lets through
+        hx.require(sorted(sels) == sorted(["/d/.Links", "/d/.names", "/d/a.txt", "/d/b.txt", "/d/b2.txt", "/d/capx.txt", "/d/hid", "/d/zdir"]), "C07:listing-not-exactly-visible-entries", lambda: repr(sels))
     return True
 
 
